@@ -359,6 +359,23 @@ impl HistGen {
             _ => Pred::Grp(rng.below(groups)),
         }
     }
+    /// The first operations of a re-created writer are stamped right after the last commit's
+    /// opstamp: now and then a delete is the very first one, followed by a merge of committed
+    /// segments and a rollback or commit (the delete must neither be baked into the merged
+    /// segment nor be lost).
+    fn after_new_writer(&mut self, rng: &mut Rng, cfg: &GenCfg, ops: &mut Vec<Op>) {
+        if cfg.w[8] == 0 || !rng.chance(1, 3) {
+            return;
+        }
+        let p = self.pred(rng, cfg.groups, true);
+        ops.push(if rng.bool() { Op::DeleteTerm(p) } else { Op::DeleteQuery(p) });
+        if rng.bool() {
+            ops.push(Op::Add(self.doc(rng, cfg.groups)));
+        }
+        ops.push(Op::Merge { pick: rng.next_u64(), n: rng.urange(2, 4), wait: rng.chance(2, 3) });
+        ops.push(if rng.bool() { Op::Rollback } else { Op::Commit });
+    }
+
     pub fn history(&mut self, rng: &mut Rng, cfg: &GenCfg) -> Vec<Op> {
         let mut ops = vec![];
         let mut w = cfg.w;
@@ -425,16 +442,22 @@ impl HistGen {
                     },
                     abort: rng.chance(1, 3),
                 }),
-                7 => ops.push(Op::Rollback),
+                7 => {
+                    ops.push(Op::Rollback);
+                    self.after_new_writer(rng, cfg, &mut ops);
+                }
                 8 => ops.push(Op::Merge {
                     pick: rng.next_u64(),
                     n: rng.urange(2, 4),
                     wait: rng.chance(2, 3),
                 }),
                 9 => ops.push(Op::Gc),
-                10 => ops.push(Op::Reopen {
-                    wait_merges: rng.bool(),
-                }),
+                10 => {
+                    ops.push(Op::Reopen {
+                        wait_merges: rng.bool(),
+                    });
+                    self.after_new_writer(rng, cfg, &mut ops);
+                }
                 12 => ops.push(Op::SetPolicy(rng.bool())),
                 13 => ops.push(Op::PrepDrop),
                 _ => {
